@@ -62,6 +62,15 @@ def nightly_sysroot():
     return subprocess.check_output(["rustc", "+nightly", "--print", "sysroot"], text=True).strip()
 
 
+def driver_hash():
+    h = hashlib.sha256()
+    d = os.path.join(VERIF, "driver", "src")
+    for f in sorted(os.listdir(d)):
+        with open(os.path.join(d, f), "rb") as fh:
+            h.update(fh.read())
+    return h.hexdigest()[:8]
+
+
 def ensure_driver():
     if os.path.exists(DRIVER):
         src_m = max(os.path.getmtime(os.path.join(VERIF, "driver", "src", f)) for f in os.listdir(os.path.join(VERIF, "driver", "src")))
@@ -123,7 +132,7 @@ def ensure_facts(configs, repo=None):
     try:
         ensure_driver()
         th = tree_hash(repo)
-        base = os.path.join(CACHE, "facts", th)
+        base = os.path.join(CACHE, "facts", th + "-" + driver_hash())
         os.makedirs(base, exist_ok=True)
         todo = [c for c in configs if not all(os.path.exists(os.path.join(base, c, f)) for f in CONFIGS[c][1])]
         timings = {}
@@ -146,7 +155,7 @@ def ensure_facts(configs, repo=None):
         root = os.path.join(CACHE, "facts")
         ds = sorted((os.path.getmtime(os.path.join(root, d)), d) for d in os.listdir(root))
         for _, d in ds[:-6]:
-            if d != th:
+            if d != os.path.basename(base):
                 shutil.rmtree(os.path.join(root, d), ignore_errors=True)
         os.utime(base)
         return th, {c: os.path.join(base, c) for c in configs}, timings
